@@ -10,6 +10,7 @@ import (
 
 	"free5gclib/aper"
 	"free5gclib/nas/nasConvert"
+	"free5gclib/nas/security"
 	"free5gclib/ngap"
 	"free5gclib/ngap/ngapConvert"
 	"free5gclib/ngap/ngapType"
@@ -28,7 +29,7 @@ import (
 // conversion helpers and the two hand-written extractors. Inputs are generated inside the goroutine from the actor's
 // own PRNG; generators of the harness that keep shared tables are serialised by c20RefMu (the monitor must not be the race).
 
-var c20ExtNames = []string{"ngap-any-message", "ngap-transfer-container", "nas-any-message", "ngap-builder", "identity-and-conversion", "extractors", "large-fragmented-value"}
+var c20ExtNames = []string{"ngap-any-message", "ngap-transfer-container", "nas-any-message", "ngap-builder", "identity-and-conversion", "extractors", "large-fragmented-value", "algorithm-entry-points"}
 
 // c20Builders: the C13 builder table minus the two NG Setup builders (they WRITE the announced PLMN, which the
 // emulator does once before any UE exists - stated assumption of the check).
@@ -189,6 +190,22 @@ func c20OpExt(a *c20Actor, kind int, h hash.Hash) {
 			fmt.Fprint(h, err, len(back.Value))
 			h.Write(back.Value)
 		}
+	case 7: // the exported algorithm functions themselves (the way to a bit-granular LENGTH, as the conformance vectors use): they share whatever the wrappers share
+		msg := rbytes(r, 1+r.Intn(96))
+		bits := uint32(8*len(msg)) - uint32(r.Intn(8))
+		cnt, dir := r.Uint32(), uint32(r.Intn(2))
+		o1, err := security.NEA1(a.ue.KnasEnc, cnt, 1, dir, msg, bits)
+		fmt.Fprint(h, err)
+		h.Write(o1)
+		m1, err := security.NIA1(a.ue.KnasInt, cnt, 1, dir, msg, uint64(bits))
+		fmt.Fprint(h, err)
+		h.Write(m1)
+		o2, err := security.NEA2(a.ue.KnasEnc, cnt, 1, uint8(dir), msg)
+		fmt.Fprint(h, err)
+		h.Write(o2)
+		m2, err := security.NIA2(a.ue.KnasInt, cnt, 1, uint8(dir), msg)
+		fmt.Fprint(h, err)
+		h.Write(m2)
 	}
 	_ = tglib.NewRanUeContext
 }
